@@ -9,8 +9,9 @@ pub struct Lines<R> { _p: core::marker::PhantomData<R> }
 impl<R> BufReader<R> {
     #[verifier::external_body]
     pub fn new(inner: R) -> (r: BufReader<R>) { unimplemented!() }
+    /// ASSUMED: fewer than usize::MAX lines (a line costs at least one byte of a stream whose length fits a u64)
     #[verifier::external_body]
-    pub fn lines(self) -> (r: Lines<R>) { unimplemented!() }
+    pub fn lines(self) -> (r: Lines<R>) ensures r.remaining() < usize::MAX { unimplemented!() }
 }
 impl<R> Lines<R> {
     /// number of lines still to come (finite input)
@@ -19,7 +20,7 @@ impl<R> Lines<R> {
     pub fn next(&mut self) -> (r: Option<core::result::Result<String, IoError>>)
         ensures
             r is Some ==> old(self).remaining() > 0 && final(self).remaining() == old(self).remaining() - 1,
-            r is None ==> old(self).remaining() == 0,
+            r is None ==> old(self).remaining() == 0 && final(self).remaining() == 0,
     { unimplemented!() }
 }
 /// R18: `line.split(c).collect::<Vec<_>>()` — ASSUMED: some non-empty vector of pieces (nothing is assumed about their number)
